@@ -24,7 +24,7 @@ TARGETS = ['valjean.eponine.tripoli4.scan:Scanner.__init__', 'valjean.eponine.tr
            'valjean.eponine.tripoli4.parse:Parser.__init__', 'valjean.eponine.tripoli4.parse:Parser._scan',
            'valjean.eponine.tripoli4.parse:Parser._check_scan', 'valjean.eponine.tripoli4.parse:Parser.parse_from_index',
            'valjean.eponine.tripoli4.parse:Parser._parse_listing_worker', 'valjean.eponine.tripoli4.parse:Parser._time_consistency']
-DATA = '/repo/tests/eponine/tripoli4/data'
+DATA = os.environ.get('VERIF_TREE', '/repo') + '/tests/eponine/tripoli4/data'
 LISTINGS = {'para': 'ttsSimplePacket20.d.PARA.res.ceav5', 'green': 'greenband_exploit_T410_contrib.d.res.ceav5',
             'pertu': 'pertu_covariances.d.res.ceav5'}
 KEYWORDS = ['BATCH', 'number of tasks is', 'BATCH_PER_SIMULATOR', 'PACKET_LENGTH', 'initialization time', 'batch number :',
